@@ -54,6 +54,8 @@ func c07Ops() []c07Op {
 		{name: "failNested", prog: nested, env: se(1, 0)},
 		{name: "okNested", prog: nested, env: se(1, 1)},
 		{name: "overBudget", prog: alloc, env: se(20, 1)},
+		{name: "allocAtBudget", prog: alloc, env: se(5, 1)},
+		{name: "arrays", prog: mustC(`map(A, {[#, N]})`, expr.Env(c07Env{}), noopt), env: se(2, 1)},
 		{name: "long", prog: mustC(`[N, N + 1, N + 2, N + 3][2] + len(A[1:])`, expr.Env(c07Env{}), noopt), env: se(5, 1)},
 		{name: "count", prog: mustC(`count(A, {# > 1}) + count(1..N, {# > Z})`, expr.Env(c07Env{}), noopt), env: se(3, 1)},
 		{name: "mapEnv", prog: mustC(`filter(A, {# >= N})`, expr.Env(me)), env: me},
@@ -68,6 +70,9 @@ func c07Ops() []c07Op {
 		{name: "budget10", budget: 10},
 	}
 }
+
+// c07Mutated is set by c07Replay when a later run changed a value returned by an earlier one.
+var c07Mutated string
 
 type c07Res struct {
 	out    string
@@ -102,11 +107,31 @@ func c07Fresh(op c07Op) c07Res {
 func c07Replay(ops []c07Op, hist []int, base int) (last, fresh c07Res, state string) {
 	vm.MemoryBudget = base
 	v := &vm.VM{}
+	c07Mutated = ""
+	var kept []interface{}
+	var keptSnap []string
 	for k, i := range hist {
 		if k == len(hist)-1 {
 			fresh = c07Fresh(ops[i])
 		}
-		last = c07Run(v, ops[i])
+		if ops[i].budget > 0 {
+			last = c07Run(v, ops[i])
+			continue
+		}
+		out, err := v.Run(ops[i].prog, ops[i].env)
+		if err != nil {
+			last = c07Res{failed: true, out: err.Error()}
+		} else {
+			last = c07Res{out: snap.String(out)}
+			kept = append(kept, out)
+			keptSnap = append(keptSnap, last.out)
+		}
+		// a value returned by an earlier run must not be changed by later runs on the same VM
+		for j := 0; j+1 < len(kept) || (err != nil && j < len(kept)); j++ {
+			if snap.String(kept[j]) != keptSnap[j] {
+				c07Mutated = fmt.Sprintf("result %d of the history changed from %s to %s", j, keptSnap[j], snap.String(kept[j]))
+			}
+		}
 	}
 	state = fmt.Sprintf("budget=%d;", vm.MemoryBudget) + snap.Value(reflect.ValueOf(v).Elem())
 	return
@@ -153,6 +178,10 @@ func c07(r *report.Run) {
 				last, fresh, st := c07Replay(ops, hist, base)
 				transitions++
 				outcomes[fmt.Sprintf("%s:%v:%s", ops[i].name, last.failed, last.out)] = true
+				if c07Mutated != "" {
+					r.Report(report.Violation{Sub: "reuse", Kind: "earlier-result-changed-by-later-run", Witness: c07Names(ops, hist[len(hist)-2:]), Order: transitions,
+						Detail: map[string]interface{}{"history": c07Names(ops, hist), "what": c07Mutated}})
+				}
 				if last != fresh {
 					mismatches++
 					// shrink: drop earlier operations while the last run still differs the same way
